@@ -7,6 +7,7 @@ import (
 	"net"
 	"os"
 	"path/filepath"
+	"sync"
 	"time"
 
 	"golang.org/x/crypto/ssh"
@@ -24,6 +25,11 @@ func main() {
 		r.Rule("(1) seeded model-checked histories over plain keys (RSA, ECDSA P-256/384/521, Ed25519), certificates and hardware certificates with raw forwards, a quarter of them with the underlying agent writing its replies in fragments; (2) fault enumeration: for scripted pilot histories, every fault kind {failure reply, garbage reply, well-formed reply of the wrong message type, oversized frame, truncated frame, connection closed} at every upstream request index, in both modes; (3) construction against agents that close, fail, answer garbage/oversized/truncated, and a missing socket, in both modes; (4) raw forwards of every code 0..255 x body lengths {1, 2, 64, 64 KiB} and 16 MiB / 16 MiB+1 for three codes. distinct_nontrivial = distinct histories with a hardware certificate accepted or a raw relay compared + distinct (pilot, request index, fault kind) runs + distinct raw (code, length) relays")
 		r.Assume("a fault is a reply the x/crypto client cannot take for a success; raw forwards relay failure/garbage replies verbatim (not faults)", "after an oversized or truncated frame the scripted agent closes the connection (the stream is out of sync)")
 		gen.Pool()
+		// waits of several seconds: beside everything else
+		var iwg sync.WaitGroup
+		iwg.Add(1)
+		go func() { defer iwg.Done(); idleAfterForward(r) }()
+		defer iwg.Wait()
 		n := r.Pick(500, 8000)
 		st := sh.Batch(r, "C10", "hist", n, 8, func(c *ev.Case, i int) sh.Config {
 			cfg := sh.Config{NoUpstream: i%2 == 1, Steps: 8 + c.Rand.Intn(30), Windows: []int{sh.WCurrent, sh.WCurrent, sh.WForever, sh.WCurrent, sh.WPast}, KIDs: []string{"touch", "text", "touchless", "inagent"}, Preload: i%2 == 0, Forward: true, DirectLock: i%11 == 0, LockOps: i%5 == 2, // a fifth of the histories lock and unlock too: raw requests are relayed whatever the lock state
